@@ -895,7 +895,29 @@ impl Mp4TrackWriter {
         sample: &Mp4Sample,
         movie_timescale: u32,
     ) -> Result<u64> {
-        self.chunk_buffer.extend_from_slice(&sample.bytes);
+        // Do the only fallible step first: when this sample completes the chunk, write the
+        // buffered chunk followed by the sample before any table is touched. If the stream
+        // fails the call is rejected as a whole: nothing about the sample was recorded, the
+        // earlier samples of the chunk stay buffered, and whatever part reached the stream is
+        // dead space inside mdat that no chunk offset refers to.
+        let completes_chunk = if self.samples_per_chunk > 0 {
+            self.chunk_samples + 1 >= self.samples_per_chunk
+        } else {
+            self.chunk_duration.saturating_add(sample.duration) >= self.duration_per_chunk
+        };
+        let chunk_offset = if completes_chunk {
+            let chunk_offset = writer.stream_position()?;
+            writer.write_all(&self.chunk_buffer)?;
+            writer.write_all(&sample.bytes)?;
+            Some(chunk_offset)
+        } else {
+            None
+        };
+
+        // Nothing below can fail.
+        if chunk_offset.is_none() {
+            self.chunk_buffer.extend_from_slice(&sample.bytes);
+        }
         self.chunk_samples += 1;
         self.chunk_duration = self.chunk_duration.saturating_add(sample.duration);
         self.update_sample_sizes(sample.bytes.len() as u32);
@@ -903,13 +925,10 @@ impl Mp4TrackWriter {
         self.update_rendering_offsets(sample.rendering_offset);
         self.update_sync_samples(sample.is_sync);
         self.update_durations(sample.duration, movie_timescale);
-
-        // Finish the bookkeeping before touching the stream: if the chunk flush fails the
-        // sample stays buffered and accounted for, and later calls see a consistent state.
         self.sample_id += 1;
 
-        if self.is_chunk_full() {
-            self.write_chunk(writer)?;
+        if let Some(chunk_offset) = chunk_offset {
+            self.finish_chunk(chunk_offset);
         }
 
         Ok(self.trak.tkhd.duration)
@@ -949,14 +968,18 @@ impl Mp4TrackWriter {
 
         writer.write_all(&self.chunk_buffer)?;
 
+        self.finish_chunk(chunk_offset);
+
+        Ok(())
+    }
+
+    fn finish_chunk(&mut self, chunk_offset: u64) {
         self.update_sample_to_chunk(self.chunk_count() + 1);
         self.update_chunk_offsets(chunk_offset);
 
         self.chunk_buffer.clear();
         self.chunk_samples = 0;
         self.chunk_duration = 0;
-
-        Ok(())
     }
 
     fn max_sample_size(&self) -> u32 {
